@@ -23,7 +23,7 @@ chk("C02", "exploration", T + "differential against an independent IAVL+ impleme
 chk("C03", "exploration", T + "ICS-23 verification of every proof against the reference root plus negative cross-checks",
     "For every reached state (histories x restarts x pruning x configurations) every probe key's proof is verified with the ics23 library against R2's root hash, neighbours are compared with R1, error cases and negative cross-checks (other value/key/claim/root) are exercised. No fault or schedule dimension exists for this property; the simulator contributes the reachable states.", N + " ics23 verifier trusted. Empty values excluded (ICS-23 cannot prove them).", "DESIGN.md §5 C03")
 chk("C07", "exploration", T + "fast-path vs tree-walk vs model after every step; raw audit of the f/m key spaces on the simulated disk with an independent codec",
-    "Histories in which every (re)open independently chooses fast index on/off and the load target; with the index enabled every read path is compared with R1 after every step and the raw index entries and label are decoded from the simulated disk after every commit/open/rollback/import.", N, "DESIGN.md §5 C07")
+    "Histories in which every (re)open independently chooses fast index on/off and the load target; every read path is compared with R1 after every step (also on handles opened with the index disabled, which must not answer from an index they do not maintain); with the index enabled the raw index entries and label are decoded from the simulated disk after every commit/open/rollback/import.", N, "DESIGN.md §5 C07")
 chk("C08", "exploration", T + "exhaustive bound-set enumeration per reached state on all three iterator implementations and the callback forms",
     "For sampled states of seeded histories the full (start,end,direction) cross product of a bound set is iterated through every iteration interface and compared with R1's range incl. Domain/termination/Error/stop points. No fault or schedule dimension; faults during iteration are C17, concurrency C06.", N, "DESIGN.md §5 C08")
 chk("C11", "exploration", T + "shape invariants vs R2 after every step; storage reads per lookup counted at the storage seam on a cache-less restart",
@@ -41,15 +41,15 @@ chk("C15", "exploration", T + "normal-form change sets computed from the version
     "Histories with repeated writes of one key per version, no-op and empty versions, pruning; every extracted change set whose predecessor is retained is compared with R1's normal form; replay of all change sets reproduces contents (and hashes for normal-form runs). No fault or schedule dimension.", N, "DESIGN.md §5 C15")
 
 chk("C05", "fault_enumeration", "deterministic simulation with crash injection: fault-free run records the physical write log of the simulated disk; every boundary between two physical writes of every multi-write step is enumerated, the store is reopened on that image and compared with the model before/after the step; retry and continuation must be canonical",
-    "Cut positions are enumerated exhaustively for each explored history (commit, deletion of old versions, rollback, import commit, fast-index build/rebuild); histories, flush thresholds (150..default) and the reopening configuration are sampled; one run in ten starts from a database written by the real legacy library, one per batch is a ~21 000-node import (24 sampled cuts). Old-or-new is decided on the whole observable state (version APIs, all reads of all retained versions through walk/fast path/iteration, hashes); an operation over several versions carried out for some of them only is told apart from a damaged state (intermediate-version, listed finding; retry must still succeed).", "Storage model of the statement: atomic, totally ordered batch writes (no torn batches, reordering or lost un-synced writes). " + N, "DESIGN.md §5 C05")
-chk("C18", "exploration", "deterministic simulation of storage programs: one seeded program of point ops, batches (incl. reuse after write/close), forward/reverse iterators over all bound shapes and nested prefix views executed on MemDB, GoLevelDB (real files, clean close/reopen), PrefixDB stacks and a sorted-map model; results and full root contents compared after every step",
-    "Seeded sequential programs over a byte alphabet containing 0x00 and 0xFF with nested prefixes incl. 0xFF runs; every result is compared with a sorted-map model and across backends; prefix isolation is checked on the shared parent store after every step.", "Sequential programs plus clean restart only: batch atomicity under concurrent readers or power loss is not decided. GoLevelDB itself (third party) is trusted. The sorted-map model is the specification.", "DESIGN.md §5 C18")
+    "Cut positions are enumerated exhaustively for each explored history (commit, deletion of old versions, rollback, import commit, fast-index build/rebuild); histories, flush thresholds (150..default) and the reopening configuration are sampled; one run in ten starts from a database written by the real legacy library, one per batch is a ~21 000-node import (24 sampled cuts); a third of the runs (mode nested) add SECOND stops inside the recovery (open on the crash image + repeated operation) and stops after which the application commits other writes under the same version number with the opposite index setting; one run in ten (mode async) is a writer with background pruning and readers under the seeded scheduler of C06, whose interleaved write log (deletion and commit writes sharing one batch) is cut at up to 24 boundaries: the image must load, list only versions between what had returned and what had been started/requested, and every listed version must be complete. Old-or-new is decided on the whole observable state (version APIs, all reads of all retained versions through walk/fast path/iteration, hashes); an operation over several versions carried out for some of them only is told apart from a damaged state (intermediate-version, listed finding; retry must still succeed).", "Storage model of the statement: atomic, totally ordered batch writes (no torn batches, reordering or lost un-synced writes). " + N, "DESIGN.md §5 C05")
+chk("C18", "exploration", "deterministic simulation of storage programs: one seeded program of point ops, batches (incl. reuse after write/close), forward/reverse iterators over all bound shapes and nested prefix views executed on MemDB, GoLevelDB (real files, clean close/reopen), PrefixDB stacks and a sorted-map model; results and full root contents compared after every step; a fifth of the runs are concurrent programs under the seeded cooperative scheduler (one writer of batches, 1-3 readers taking snapshots of MemDB / PrefixDB(MemDB), guarded yield point between the operations of a batch write, lock-probe rule): every snapshot must be the contents after a whole number of batches",
+    "Seeded sequential programs over a byte alphabet containing 0x00 and 0xFF with nested prefixes incl. 0xFF runs; every result is compared with a sorted-map model and across backends; prefix isolation is checked on the shared parent store after every step. Concurrent mode: seeded schedules of a batch writer and snapshot readers on the in-memory backend; a torn batch (a snapshot that is not the state after a whole number of batches) is a violation; schedules are recorded, replayed and minimised.", "Batch atomicity under concurrent readers is decided for MemDB and PrefixDB over it only (GoLevelDB's batch write is third-party code without a seam; it is trusted); power loss is not simulated for the real backends. The sorted-map model is the specification.", "DESIGN.md §5 C18, §11.7")
 
 chk("C17", "fault_enumeration", "deterministic simulation with storage fault injection: every single storage call (by kind and index) of every probe operation fails once on a fork of the simulated disk; error-or-fault-free-answer for reads, no success after a failed write, reopen to old-or-new after failed write operations; seeded two-fault sequences",
     "Single-fault positions are enumerated exhaustively per explored (history, probe); histories and probes (17 read kinds, 7 write kinds incl. import and unchanged commits) are sampled; one run in eight starts from a database written by the real legacy library; a fifth are whole histories under random fault sequences; one per 350 is a ~21 000-node import under faults. A write operation that succeeds under a failed read must leave the fault-free durable contents. Signatures carry the API, whether anything was flushed, the failing call kind, the innermost iavl call site of the injected failure and the symptom.", "A failed storage call returns an error and has no effect. After a reported error the handle is discarded. APIs without an error result are outside the statement. " + N, "DESIGN.md §5 C17")
 
 chk("C10", "exploration", T + "export/import steps inside lock-step histories (stream vs R2 post-order, imported tree vs R1/R2, future hashes); simulated faulty exporter->importer channel and generated hostile node sequences against both importers",
-    "Fidelity: export of every kind of retained version (empty, single leaf, inherited root, >10 000 nodes) through both codecs, imported tree audited and continued. Totality: mutated and generated ExportNode sequences fed to Add/Commit by callers that give up at the first error or keep feeding and commit anyway; no panic/hang, nothing visible unless Commit succeeded, committed imports internally consistent and holding every accepted leaf.", N + " Import versions capped at 10^6 (allocation of version+1 nonces).", "DESIGN.md §5 C10")
+    "Fidelity: export of every kind of retained version (empty, single leaf, inherited root, >10 000 nodes, trees holding the empty key in an eighth of the runs) through both codecs, imported tree audited and continued. Totality: mutated and generated ExportNode sequences fed to Add/Commit by callers that give up at the first error or keep feeding and commit anyway; no panic/hang, nothing visible unless Commit succeeded, committed imports internally consistent and holding every accepted leaf.", N + " Import versions capped at 10^6 (allocation of version+1 nonces).", "DESIGN.md §5 C10")
 
 chk("C06", "exploration", "deterministic simulation of schedules: writer, readers and iavl's own pruner/exporter goroutines run as tasks of a seeded cooperative scheduler (guarded hooks in iavl, lock-free storage calls and operation boundaries are yield points, simulated clock for the pruner's sleeps); race-detector build whose hand-off is hidden from the detector; every read compared with the precomputed contents of its version",
     "Seeded search over schedules x histories x {cache 0/small/large} x {fast index on/off} x {sync, async pruning, SetCommitting bracket with deletion requests between or inside the brackets}. Oracles: exact contents/proofs/export stream per version, no data race (happens-before detector on a serialised execution whose scheduler hand-offs create no happens-before edges), pinned versions not deleted, no panic, no deadlock. Recorded schedules are explicit, replayable and minimised.", "Preemption only at yield points (races between yield points are still found by the HB detector). Readers only hold versions the writer does not prune (lease registry). " + N, "DESIGN.md §5 C06")
